@@ -5,6 +5,7 @@ package main
 import (
 	"fmt"
 	"go/types"
+	"regexp"
 	"sort"
 	"strings"
 
@@ -229,6 +230,40 @@ func Sub(a, b T) T {
 		return a
 	}
 	return app(SInt, "-", a, b)
+}
+// Mul: products with a literal factor stay linear; a product of two symbolic
+// values is the uninterpreted imul (prelude axioms: zero, sign, unit step),
+// so that code and contract share one term and no solver needs nonlinear arithmetic.
+func Mul(a, b T) T {
+	if x, ok := smallLit(a); ok {
+		if y, ok2 := smallLit(b); ok2 && x < 1<<30 && y < 1<<30 {
+			return I(x * y)
+		}
+		return app(SInt, "*", a, b)
+	}
+	if _, ok := smallLit(b); ok {
+		return app(SInt, "*", b, a)
+	}
+	if isLiteralTerm(a) || isLiteralTerm(b) {
+		return app(SInt, "*", a, b)
+	}
+	return app(SInt, "imul", a, b)
+}
+
+func isLiteralTerm(t T) bool {
+	s := t.S
+	if strings.HasPrefix(s, "(- ") && strings.HasSuffix(s, ")") {
+		s = s[3 : len(s)-1]
+	}
+	if s == "" {
+		return false
+	}
+	for _, c := range s {
+		if c < '0' || c > '9' {
+			return false
+		}
+	}
+	return true
 }
 func Le(a, b T) T  { return app(SBool, "<=", a, b) }
 func Lt(a, b T) T  { return app(SBool, "<", a, b) }
@@ -469,10 +504,14 @@ func wrap(t T, typ types.Type) T {
 	if !ok {
 		return t
 	}
-	if signed {
-		return T{fmt.Sprintf("(- (mod (+ %s %s) %s) %s)", t.S, pow2(bits-1), pow2(bits), pow2(bits-1)), SInt}
+	if n, ok := smallLit(t); ok && bits >= 32 && n < 2147483648 {
+		return t
 	}
-	return T{fmt.Sprintf("(mod %s %s)", t.S, pow2(bits)), SInt}
+	// wrapS<w>/wrapU<w> are prelude macros: identity when in range, exact modular reduction otherwise
+	if signed {
+		return T{fmt.Sprintf("(wrapS%d %s)", bits, t.S), SInt}
+	}
+	return T{fmt.Sprintf("(wrapU%d %s)", bits, t.S), SInt}
 }
 
 // leafSort gives the SMT sort of a type that is represented as one leaf.
@@ -516,9 +555,14 @@ func structOf(t types.Type) *types.Struct {
 	return s
 }
 
+var reByte = regexp.MustCompile(`\bbyte\b`)
+var reRune = regexp.MustCompile(`\brune\b`)
+
 func typeKey(t types.Type) string {
 	t = types.Unalias(t)
 	s := types.TypeString(t, func(p *types.Package) string { return p.Name() })
+	s = reByte.ReplaceAllString(s, "uint8")
+	s = reRune.ReplaceAllString(s, "int32")
 	r := strings.NewReplacer("*", "P_", "[]", "S_", ".", "_", " ", "", "{", "_", "}", "_", "(", "_", ")", "_", ",", "_", "[", "_", "]", "_", ";", "_", "/", "_", "-", "_", "\"", "", ":", "_")
 	return r.Replace(s)
 }
